@@ -50,13 +50,36 @@ func (f *Tagbody) Call(s *slip.Scope, args slip.List, depth int) slip.Object {
 	ns.TagBody = true
 	d2 := depth + 1
 	for i := 0; i < len(args); i++ {
-		if gt, _ := slip.EvalArg(ns, args, i, d2).(*GoTo); gt != nil {
-			for i++; i < len(args); i++ {
-				if args[i] == gt.Tag {
+		if isTag(args[i]) {
+			// A tag, not a form to evaluate.
+			continue
+		}
+		switch tr := slip.EvalArg(ns, args, i, d2).(type) {
+		case *GoTo:
+			// The tag can be anywhere in the body, before or after the go.
+			found := false
+			for j, a := range args {
+				if isTag(a) && a == tr.Tag {
+					i = j
+					found = true
 					break
 				}
 			}
+			if !found {
+				// Not a tag of this tagbody, an enclosing one may have it.
+				return tr
+			}
+		case *slip.ReturnResult:
+			return tr
 		}
 	}
 	return nil
+}
+
+func isTag(a slip.Object) bool {
+	switch a.(type) {
+	case slip.Symbol, slip.Integer:
+		return true
+	}
+	return a == slip.True
 }
